@@ -226,7 +226,9 @@ class AbstractDateTime(AnyAtomicType):
         raise NotImplementedError
 
     def __hash__(self) -> int:
-        return hash((self._dt, self._year))
+        # The name of the type is part of the hash: values of different date/time types
+        # are never the same key of a map (and comparing some of them is a type error)
+        return hash((self.name, self._dt, self._year))
 
     def __eq__(self, other: object) -> bool:
         return self._compare(other, operator.eq)
